@@ -135,9 +135,13 @@ def _(disp, valid):
     invariant(1, all(mis_mc_cnn_pixel(disp, valid, out_disp, out_val, c, r) for c in range(col) for r in range(nrow)))
     invariant(2, all(mis_mc_cnn_pixel(disp, valid, out_disp, out_val, col, r) for r in range(row)))
     invariant(4, isnan(interp_mismatched[direction]))
-    after(4, isnan(interp_mismatched[direction])
-          or any(valid_px(valid, a, b) and eq(interp_mismatched[direction], disp[a, b])
-                 for a in range(disp.shape[0]) for b in range(disp.shape[1])))
+    # loop summary, accumulated over the directions already scanned: each slot is NaN or the disparity of a valid pixel of
+    # the map; the slots of the directions still to come are NaN (np.full(16, nan))
+    after(4, all(isnan(interp_mismatched[e])
+                 or any(valid_px(valid, a, b) and eq(interp_mismatched[e], disp[a, b])
+                        for a in range(disp.shape[0]) for b in range(disp.shape[1]))
+                 for e in range(0, direction + 1)),
+          all(isnan(interp_mismatched[e]) for e in range(direction + 1, 16)))
 
 
 @sampler("pandora.validation.interpolated_disparity.McCnnInterpolation.interpolate_mismatch_mc_cnn")
